@@ -54,6 +54,10 @@ using L_V13 = List<D<P, sz, 8>, D<V, Big32, 32>, D<P, En>>;
 // a type with an overloaded unary operator& as first and last parameter, and in spans
 using L_P13 = List<D<P, Amp>, D<P, u8>, D<P, Amp>>;
 using L_F12 = List<D<F, Amp>, D<P, u16>, D<P, Amp>>;
+// a non-trivially-assignable field in front of an all-plain run whose later field has the larger alignment: the run
+// starts at an offset that is not a multiple of it
+using L_P14 = List<D<P, u8>, D<P, Str>, D<P, u8>, D<P, u32, 4>>;
+using L_P15 = List<D<P, Odd3>, D<P, Asg>, D<P, u8>, D<P, u32, 4>, D<P, u16>>;
 // many parameters: three VaryingSize parameters with three count types; two FixedSize and one VaryingSize parameter with
 // decreasing alignments
 using L_V14 = List<D<P, u8>, D<V, u16>, D<P, u32>, D<V, u8>, D<P, u16>, D<V, f32>>;
